@@ -46,6 +46,9 @@ BPairs ==
     [] BPal = "z5" -> <<<<0, 2>>, <<-2, 2>>, <<0, 0>>, <<-2, 0>>, <<-1, 1>>>>                           \* contain 0
     [] BPal = "z3" -> <<<<0, 2>>, <<-2, 2>>, <<-1, 0>>>>
     [] BPal = "f3" -> <<<<0, 2>>, <<-2, 2>>, <<1, 2>>>>
+    \* pinned (lb = ub # 0) reactions on the cycle topologies: C17
+    [] BPal = "p3" -> <<<<0, 2>>, <<-2, 2>>, <<1, 1>>>>
+    [] BPal = "p5" -> <<<<0, 2>>, <<-2, 2>>, <<1, 1>>, <<2, 2>>, <<-1, -1>>>>
     [] BPal = "q4" -> <<<<0, 2>>, <<-2, 2>>, <<1, 2>>, <<0, Inf>>>>
     [] BPal = "i9" -> <<<<0, 2>>, <<-2, 2>>, <<0, 0>>, <<1, 2>>, <<-2, -1>>, <<0, Inf>>, <<NegInf, Inf>>, <<1, 1>>, <<NegInf, 1>>>>
 \* column shapes: <<a, b>> consumes metabolite a and produces metabolite b (0 = nothing: boundary)
@@ -148,6 +151,10 @@ Script(m) ==
          ELSE <<[op |-> "loopless_solution", start |-> "opt", ar |-> 1, ad |-> "max"],
                 [op |-> "loopless_solution", start |-> "none", ar |-> 1, ad |-> "max"],
                 [op |-> "add_loopless"]>>
+              \* the constraints are added while a cycle reaction is knocked out; its bounds come back
+              \* before the optimisation (the loop law must hold for the model as it is optimised)
+              \o (LET cr == {r \in RIdx(m) : \E z \in Cycles(m) : z[r] # 0} IN
+                  IF cr = {} THEN <<>> ELSE <<[op |-> "add_loopless_ko", r |-> SetMin(cr)]>>)
 
 \* a pseudo-random step of the property's vocabulary (walk mode)
 DrawStep(r, m) ==
@@ -190,7 +197,7 @@ DrawStep(r, m) ==
                      [op |-> "loopless_solution", start |-> "aux", ar |-> rr, ad |-> "max"],
                      [op |-> "loopless_solution", start |-> "aux", ar |-> rr, ad |-> "min"],
                      [op |-> "loopless_solution", start |-> "none", ar |-> rr, ad |-> "max"],
-                     [op |-> "add_loopless"]>>, d[8])
+                     [op |-> "add_loopless"], [op |-> "add_loopless_ko", r |-> rr]>>, d[8])
 
 \* ------------------------------------------------------------- the FVA protocol machine
 \* state of the worker's LP: objective vector c, direction, whether the fraction row is present
